@@ -820,6 +820,9 @@ def main():
     err = translate_meas.translate_measures(REPO, GEN, write)
     if err:
         notes.append(f"TRANSLATOR-IMP(measures): {err}")
+    err = translate_meas.translate_persist(REPO, GEN, write)
+    if err:
+        notes.append(f"TRANSLATOR-IMP(save/load): {err}")
     for n in notes:
         print(n)
     return 0
